@@ -24,6 +24,14 @@ file): its last results become visible and it ends between the parent's last loo
 finds nobody alive -- exactly the state in which, by theorem drain_needed, a parent without the drain after the last
 worker died loses what is in the queue.  The total never depends on those pauses for the code as it is (theorems
 queue_exactly_once, queue_liveness, drain_needed).
+Style "skip-bundle" (directed cases under every seed + some generated runs of every tier): skip_file_errors with an
+unreadable primary or secondary file that is the FIRST or a MIDDLE one of its worker's chunk, bundle='primary' /
+'daily', output to memory and to files, 1-2 processes, collocations in every file pair after the unreadable file (so
+that a bundle is cached when the worker's loop ends) and data that straddle midnight (daily bundles of the unreadable
+file's day and of the next).  A skipped pair makes `processed` lag behind len(matches) for the rest of the loop; the
+law is the one of theorem skip_errors_local: exactly the collocations with a point of the unreadable file are missing,
+every other one is reported once -- the worker's last cached bundle included (theorems bundling_lossless_with_skips,
+guarded_final_flush_exact: a final flush that waits for processed == len(matches) never happens after a skip).
 """
 import json
 import math
@@ -174,8 +182,13 @@ def _gen_case(rng, k, style):
             j = rng.randrange(len(files) - 1)
             files[j][1] = min(files[j + 1][1] - 1, files[j][1] + rng.randint(1, unit))
         return files
-    slow = style in ("slow-consumer", "slow-poll")
-    if slow:                                     # many primary files (one small result each), few secondary files
+    skipb = style == "skip-bundle"
+    slow = style in ("slow-consumer", "slow-poll") or skipb       # skip-bundle: the same kind of data
+    if skipb:                                    # the data straddle midnight; 4-7 primary files over 2-3 secondary files
+        base = rng.choice([86400 - H // 2, 86400 - H // 2, 2 * 86400 - unit, 0])
+        cov_a = cut("A", 7, False, 4)
+        cov_b = cut("B", 3, False, 2)
+    elif slow:                                     # many primary files (one small result each), few secondary files
         cov_a = cut("A", 7, False, 5)
         cov_b = cut("B", 2, False)
     else:
@@ -295,6 +308,15 @@ def _gen_case(rng, k, style):
     if slow:
         case.update({"processes": rng.randint(2, 4), "bundle": rng.choice([None, None, "primary"]), "output": "memory",
                      "bad": None, "skip": False})
+    if skipb:
+        # one unreadable file that is not the last one of its fileset in the period (file pairs with collocations come
+        # after it in its worker's chunk), skip_file_errors, bundling on
+        which = rng.choice("AB")
+        fnd = found_idx(case, which)[:-1]
+        if not fnd:
+            return None
+        case.update({"processes": rng.randint(1, 2), "bundle": rng.choice(["primary", "daily"]),
+                     "output": rng.choice(["memory", "files"]), "bad": [which, rng.choice(fnd)], "skip": True})
     if style == "slow-consumer":
         # the caller takes its time for every yielded dataset; several workers, results handed over one by one
         case["consumer_sleep"] = rng.choice([0.2, 0.3, 0.4])
@@ -306,7 +328,43 @@ def _gen_case(rng, k, style):
     return case
 
 
-def directed_cases(rng, k0):
+def skip_bundle_directed(full):
+    """skip_file_errors x bundle primary/daily x output memory/files x processes 1/2 x an unreadable primary /
+    secondary file that is the first / a middle one of its worker's chunk.  Five primary files of 10 minutes
+    (A0, A1 before midnight, A2..A4 after it) over three secondary files of 1000 s; every matched file pair
+    (A0-B0, A1-B0, A1-B1, A2-B1, A3-B1, A3-B2, A4-B2) holds two collocations, each at a site of its own, every
+    primary point has one partner (no two emitted sets with the same span).  With two processes the workers get
+    A0..A2 (both days) and A3, A4.  `full` (thorough): all 32 combinations; otherwise the 16 combinations of
+    bundle x output x processes x fileset of the unreadable file, first / middle alternating."""
+    U = US
+    o = 2 * 86400 - 1200                                # A2 starts at midnight of the third day
+    pairs = {(0, 0): (100, 400), (1, 0): (700, 900), (1, 1): (1050, 1150), (2, 1): (1300, 1700),
+             (3, 1): (1850, 1950), (3, 2): (2100, 2300), (4, 2): (2500, 2900)}
+    a = [{"c0": o + 600 * k, "c1": o + 600 * k + 599, "pts": []} for k in range(5)]
+    b = [{"c0": o + 1000 * j, "c1": o + 1000 * j + 999, "pts": []} for j in range(3)]
+    site = 0
+    for (k, j), ts in sorted(pairs.items()):
+        for t in ts:
+            site += 1
+            a[k]["pts"].append([(o + t) * U + 3 * site, 0.0, float(site), site])
+            b[j]["pts"].append([(o + t + 2) * U + 7 * site, 0.0, site + 0.01, 1000 + site])
+    for f in a + b:
+        f["pts"].sort(key=lambda p: p[0])
+    out = []
+    for ib, bundle in enumerate(("primary", "daily")):
+        for io, output in enumerate(("memory", "files")):
+            for ip, procs in enumerate((1, 2)):
+                for iw, which in enumerate("AB"):
+                    for pos in (0, 1):
+                        if not full and pos != (ib + io + ip + iw) % 2:
+                            continue
+                        out.append({"style": "skip-bundle-directed", "A": [dict(f) for f in a], "B": [dict(f) for f in b],
+                                    "mi": 30, "md": 5.0, "start": o - 100, "end": o + 3100, "processes": procs,
+                                    "bundle": bundle, "output": output, "bad": [which, pos], "skip": True})
+    return out
+
+
+def directed_cases(rng, k0, full=False):
     """Cases every run contains whatever the seed: no matching file pair; the default period; a primary point
     with partners in two secondary files (two output files with one name)."""
     U = US
@@ -382,6 +440,7 @@ def directed_cases(rng, k0):
     for bundle, procs in ((None, 1), ("primary", 2)):
         out.append({"style": "pauses-of-twice-max-interval", "A": [dict(f) for f in a], "B": [dict(f) for f in b], "mi": 30, "md": 5.0,
                     "start": -100, "end": 4000, "processes": procs, "bundle": bundle, "output": "memory"})
+    out += skip_bundle_directed(full)
     for i, c in enumerate(out):
         c.setdefault("bad", None)
         c.setdefault("skip", False)
@@ -634,10 +693,28 @@ def evaluate(ctx, cases, obs):
             elif lost and not extra:
                 # a run whose caller pauses after every yielded dataset is its own class: the loss is reproducible
                 # (it does not hang on two workers finishing within one pass of the parent)
-                ctx.fail(kind, f"{len(lost)} of {len(expected)} collocations are missing: {lost[:5]} {what}", case=cs,
+                note = ""
+                skipb = bool(c.get("bad") and c.get("skip") and c["bundle"] is not None
+                             and str(c["style"]).startswith("skip-bundle"))
+                if skipb:
+                    # is the loss exactly the LAST bundle of one or more workers (what the model hands over at the
+                    # final flush)?  Said in the message only; the verdict does not depend on it.
+                    lasts = [sorted(tuple(p) for p in w[-1][0]) for w in model_sets if w]
+                    rest = sorted(lost)
+                    hit = 0
+                    for lb in lasts:
+                        if lb and all(rest.count(p) >= lb.count(p) for p in lb):
+                            for p in lb:
+                                rest.remove(p)
+                            hit += 1
+                    note = (f"; none of them involves the unreadable file; the loss is exactly the last bundle of {hit} "
+                            f"worker(s) -- the bundle cached when the worker's loop ended" if hit and not rest else
+                            "; none of them involves the unreadable file")
+                ctx.fail(kind, f"{len(lost)} of {len(expected)} collocations are missing: {lost[:5]}{note} {what}", case=cs,
                          impl=impl, model=expected,
                          signature=("lost-collocations-slow-consumer" if c.get("consumer_sleep") else
-                                    "lost-collocations-slow-poll" if c.get("poll_sleep") else "lost-collocations"))
+                                    "lost-collocations-slow-poll" if c.get("poll_sleep") else
+                                    "lost-collocations-skipped-pair-bundle" if skipb else "lost-collocations"))
             else:
                 ctx.fail(kind, f"wrong collocations: missing {lost[:4]}, unexpected {extra[:4]} {what}", case=cs,
                          impl=impl, model=expected, signature="wrong-collocations")
@@ -699,7 +776,9 @@ def run(ctx):
     cases = [gen_case(ctx.rng, k) for k in range(n)]
     nslow = ctx.n(4, 16)
     cases += [gen_case(ctx.rng, n + k, "slow-consumer" if k % 2 == 0 else "slow-poll") for k in range(nslow)]
-    cases += directed_cases(ctx.rng, n + nslow)
+    nskip = ctx.n(4, 24)                       # generated AFTER the older styles: their random stream is unchanged
+    cases += [gen_case(ctx.rng, n + nslow + k, "skip-bundle") for k in range(nskip)]
+    cases += directed_cases(ctx.rng, n + nslow + nskip, full=ctx.thorough)
     ctx.log(f"{len(cases)} end-to-end configurations")
     obs = run_impl(ctx, cases, jobs=ctx.n(6, 8), batch=ctx.n(4, 10))
     ctx.log("implementation runs done: %.1f s of child wall time" % sum(o.get("wall", 0) for o in obs))
@@ -719,7 +798,9 @@ def run(ctx):
                                      "bundle": count("bundle"), "output": count("output"),
                                      "default_period": sum(1 for c in cases if c["start"] is None),
                                      "slow_consumer": sum(1 for c in cases if c.get("consumer_sleep")),
-                                     "slow_poll": sum(1 for c in cases if c.get("poll_sleep")), **stats}
+                                     "slow_poll": sum(1 for c in cases if c.get("poll_sleep")),
+                                     "skip_bundle": sum(1 for c in cases if str(c["style"]).startswith("skip-bundle")),
+                                     **stats}
     ctx.assumptions += [
         "every point is stored in exactly one file whose coverage contains its time; max_interval is a whole number of "
         "seconds (hypotheses of the theorems, checked per case inside Coq)",
